@@ -7,16 +7,25 @@ namespace Lexgen
 variable {σ τ ε : Type}
 
 /-- The number stored in `__state` for a state that has an arm selects exactly that state's arm,
-whatever was inlined before it. -/
-theorem C03_dispatch (d : DFA Trans) (s : Nat) (hs : s < d.length) (as : hasArm d s = true) :
-    dispatch (stateArms d) (renumber (inlinedStates d) s) = some s :=
-  dispatch_correct d (initialNotInlined d) s hs as
+whatever was inlined before it — for any admissible set `inl` of inlined states (whatever policy
+chose it). -/
+theorem C03_dispatch (d : DFA Trans) (inl : List Nat) (hI : InlOK d inl) (s : Nat) (hs : s < d.length)
+    (as : hasArm inl s = true) :
+    dispatch (stateArms d inl) (renumber inl s) = some s :=
+  dispatch_correct d inl hI s hs as
 
 /-- `switch R` stores the number whose arm is the code of `R`'s own entry state. -/
-theorem C03_switch (d : DFA Trans) (entries : List (String × Nat)) (name : String) (e : Nat)
+theorem C03_switch (d : DFA Trans) (inl : List Nat) (hI : InlOK d inl) (entries : List (String × Nat))
+    (name : String) (e : Nat)
     (he : (name, e) ∈ entries) (hlt : e < d.length) (hini : (d.st e).initial = true) :
-    ∃ n, (name, n) ∈ switchTable d entries ∧ dispatch (stateArms d) n = some e :=
-  switch_correct d (initialNotInlined d) entries name e he hlt hini
+    ∃ n, (name, n) ∈ switchTable inl entries ∧ dispatch (stateArms d inl) n = some e :=
+  switch_correct d inl hI entries name e he hlt hini
+
+/-- The macro's current policy is one admissible choice. -/
+theorem C03_dispatch_default (d : DFA Trans) (s : Nat) (hs : s < d.length)
+    (as : hasArm (inlinedStates d) s = true) :
+    dispatch (stateArms d (inlinedStates d)) (renumber (inlinedStates d) s) = some s :=
+  C03_dispatch d (inlinedStates d) (inlOK_inlinedStates d) s hs as
 
 /-- At every lexeme boundary `__state = __initial_state` is the number of a rule set's entry state
 (or state 0): the active rule set changes only through `switch` or a failure. -/
